@@ -128,7 +128,7 @@ pub fn run_explorer_ext(
         "states": total.states,
         "transitions": total.transitions,
         "traces_validated_against_impl": total.transitions,
-        "samples": sample_histories(&specs, 3),
+        "samples": if total.samples.is_empty() { sample_histories(&specs, 3) } else { total.samples.iter().map(|(h, t)| json!({"history": h, "outcome_of_last_call": t})).collect::<Vec<_>>() },
         "exhaustive": exhaustive,
         "technique": technique,
         "explanation": "explicit-state BFS over operation histories; every transition is executed on the real fatfs crate (replay from the initial image), so every explored trace is an implementation trace; states de-duplicated on (image overlay, hidden FileSystem/File/Dir state, model state)",
